@@ -10,8 +10,8 @@ CHECKS = {
    technique="Rocq theorems over a Gallina model + differential correspondence (extracted OCaml vs Go)",
    design="7 (C05)"),
  "C13": dict(
-   text="Theorems in Rocq (rocq/Props/C13.v, 62 statements, axiom-free) over an executable Gallina model of tax.NormalizeIdentity and of the 17 regime validators (AE AT BE BR CH CO DE EL/GR ES FR GB IN IT MX NL PL PT; TaxId/Regimes.v): a generic lemma (a weight coprime to a modulus above 9 separates digits; Luhn doubling is a permutation) instantiated per regime to state exactly which single-digit errors are detected (all for PL CH BE FR IT AT ES DE IN; all but a characterised folded class for PT EL CO BR; all but 2nd digit +-6 / 3rd digit +-7 for GB; per test for NL), normalisation idempotent iff no doubled country prefix (unguarded statement refuted by ESES...), insensitive to case/separators/one prefix, digits preserved, accepted codes are fixed points, and valid_XX <-> declarative published rule for PL CH PT EL IT FR BE (NL and GB: equivalence with the rule as implemented plus _refuted theorems for the published rule). The model is tied to /repo by running tax.Identity.Normalize/Validate (public API, regimes loaded) and the extracted model on the same ~610k raw codes per quick run (constructed-valid codes, all their single-character edits, random national-shape strings, written variants, wrong lengths, the same identity inside an org.Party) and, independently, judging Go's verdict and normalised code against a hand-written Python reading of the published rules.",
-   note="Trusted: Coq kernel, extraction (ExtrOcamlBasic), OCaml driver, Go harness, python generators/spec (tools/props/c13.py). Domain: ASCII input (plus N-tilde for MX); country codes known to l10n. Three recorded findings (findings/C13.json): NL remainder 10 accepted as check digit 0, GB sum multiple of 97 expects 00 instead of 97, BR normaliser never registered. float64 paths of AT/BE/CH are exact on the integers involved and modelled in Z. Modelled not verified: error texts, tax.ParseIdentity.",
+   text="Theorems in Rocq (rocq/Props/C13.v, 63 statements, axiom-free) over an executable Gallina model of tax.NormalizeIdentity and of the 17 regime validators (AE AT BE BR CH CO DE EL/GR ES FR GB IN IT MX NL PL PT; TaxId/Regimes.v): a generic lemma (a weight coprime to a modulus above 9 separates digits; Luhn doubling is a permutation) instantiated per regime to state exactly which single-digit errors are detected (all for PL CH BE FR IT AT ES DE IN; all but a characterised folded class for PT EL CO BR; all but 2nd digit +-6 / 3rd digit +-7 for GB; per test for NL), normalisation idempotent iff no doubled country prefix (unguarded statement refuted by ESES...), insensitive to case/separators/one prefix, digits preserved, accepted codes are fixed points, and valid_XX <-> declarative published rule for PL CH PT EL IT FR BE (NL and GB: equivalence with the rule as implemented plus _refuted theorems for the published rule). The model is tied to /repo by running tax.Identity.Normalize/Validate (public API, regimes loaded) and the extracted model on the same ~610k raw codes per quick run, 11M thorough (corpus of the repository's regime test vectors and recorded witnesses, constructed-valid codes, all their single-character edits, random national-shape strings, written variants, wrong lengths, the same identity inside an org.Party) and, independently, judging Go's verdict and normalised code against a hand-written Python reading of the published rules.",
+   note="Trusted: Coq kernel, extraction (ExtrOcamlBasic), OCaml driver, Go harness, python generators/spec (tools/props/c13.py). Domain: ASCII input (plus N-tilde for MX); country codes known to l10n. Four recorded findings (findings/C13.json, proposed patches and the matching model update in fixes/): NL remainder 10 accepted as check digit 0, GB sum multiple of 97 expects 00 instead of 97, BR normaliser never registered, country GR keeps a leading EL. float64 paths of AT/BE/CH are exact on the integers involved and modelled in Z. Modelled not verified: error texts, tax.ParseIdentity.",
    technique="Rocq theorems over a Gallina model + differential correspondence (extracted OCaml vs Go) + independent published-rule oracle",
    design="7 (C13)"),
 }
